@@ -99,12 +99,13 @@ def lane(li, n, limit):
     if not os.path.exists(wt):
         c, o = sh(f"git -C /repo worktree add --detach {wt} HEAD")
         assert c == 0, o
-    res_path = f"/verif/mutants/lane_{li}.jsonl"
+    res_path = f"/verif/mutants/lane_{li}_{n}.jsonl" if n != 3 else f"/verif/mutants/lane_{li}.jsonl"
     os.makedirs("/verif/mutants", exist_ok=True)
     done = set()
-    if os.path.exists(res_path):
-        for l in open(res_path):
-            done.add(json.loads(l)["id"])
+    for q in os.listdir("/verif/mutants"):
+        if q.startswith("lane_") and q.endswith(".jsonl"):
+            for l in open(os.path.join("/verif/mutants", q)):
+                done.add(json.loads(l)["id"])
     cands = candidates()
     mine = [c for k, c in enumerate(cands) if k % n == li]
     if limit:
